@@ -278,6 +278,35 @@ func cmdCheck(args []string) int {
 	}
 	solveAll(all, opts)
 
+	// thorough: proof stability. Every discharged obligation is solved again under two more solver
+	// seeds; an obligation that is not discharged again is reported in the evidence as unstable
+	// (a brittle proof is a future false alarm, not a violation: the exit status is unaffected).
+	unstable := []string{}
+	stabilitySeeds := []int{}
+	if *tier == "thorough" {
+		for _, extra := range []int{1, 2} {
+			o2 := opts
+			o2.seed = opts.seed + extra
+			stabilitySeeds = append(stabilitySeeds, o2.seed)
+			var again []*Obligation
+			for _, o := range all {
+				if o.Cover || o.Status != "unsat" || o.Kind == "site-enum" || o.Kind == "owner" {
+					continue
+				}
+				c := *o
+				c.Status, c.Backend, c.Model = "", "", ""
+				again = append(again, &c)
+			}
+			solveAll(again, o2)
+			for _, c := range again {
+				if c.Status != "unsat" {
+					unstable = append(unstable, fmt.Sprintf("%s (seed %d: %s)", c.Name, o2.seed, c.Status))
+				}
+			}
+		}
+		sort.Strings(unstable)
+	}
+
 	violations := 0
 	var knownLines []string
 	nObl, nDis := 0, 0
@@ -390,6 +419,7 @@ func cmdCheck(args []string) int {
 		"by_backend":               byBackend,
 		"solver_time_s":            round3(solverTime),
 		"samples":                  samples,
+		"stability":                map[string]any{"extra_solver_seeds": stabilitySeeds, "unstable_obligations": unstable},
 		"covers":                   map[string]int{"checked": coversChecked, "reachable": coversReach},
 		"bounded":                  bounded,
 		"known_findings":           knownLines,
